@@ -56,7 +56,7 @@ func TS(ns int64) string { return time.Unix(0, ns).UTC().Format(time.RFC3339Nano
 // Container is one fake container.
 type Container struct {
 	ID      string
-	Name    string // with leading slash, as the API returns it
+	Name    string   // with leading slash, as the API returns it
 	Names   []string // when set, used instead of Name (several names / none)
 	Image   string
 	ImageID string
